@@ -1,5 +1,5 @@
 """C03: printed models satisfy every current assertion; get-value agrees with the model (Lean evaluator)."""
-import os, random, multiprocessing as mp
+import os, random, re, multiprocessing as mp
 import common, gen, runner, modelcheck
 
 THEOREMS = ["Osmt.Properties.C03_model_satisfies", "Osmt.Properties.C03_eval_and", "Osmt.Properties.C03_eval_ite"]
@@ -44,6 +44,9 @@ def classify(problem, case):
     if "terminated abnormally" in problem.get("what", "") and "SafeInt" in problem.get("stderr", "") \
             and "QF_IDL" in sc and "(get-model)" in sc:
         return "idl-model-safeint-underflow"
+    if re.search(r"\(declare-fun \S+ \([^)]*\bBool\b[^)]*\)", sc) and ("evaluates to" in problem.get("what", "") or
+                                                                       "get-value" in problem.get("what", "")):
+        return "bool-arg-uf-model"
     return None
 
 
